@@ -1,4 +1,5 @@
 """C14 — nodes that disagree about the data refuse to answer (DigestGate.tla / DigestGateTrace.tla)."""
+import concurrent.futures as cf
 import copy, json, os, random, shutil
 import vlib
 from vlib import run_tlc, tlc_must_pass, qev, write_ndjson, read_ndjson, validate_trace
@@ -7,6 +8,15 @@ LEVEL = "model_checking"
 MUT_KINDS = ["rename", "rowplus", "bytesplus", "rgplus", "rgminus", "fileplus", "fileminus"]
 SAME_KINDS = ["same", "same-moved", "same-perm"]
 CASE_KEYS = ("cid", "kind", "init", "work", "n", "idx", "tamper", "viadir", "probe", "expect")
+
+def vacuity(ctx, msg):
+    """A coverage hole is a tool error - unless the run already found violations: a defect may be the very
+    reason a class of outcomes disappeared, and the verdict must not be masked by the guard."""
+    if ctx.violations:
+        ctx.notes.append("vacuity guard not enforced because violations were found: " + msg)
+        return
+    raise vlib.ToolError(msg)
+
 
 
 def to_spec(files, rs, ws, onedir=False):
@@ -129,8 +139,114 @@ def content_key(files):
     return tuple(sorted(vis))
 
 
-def judge_all(ctx, recs, outs, name):
-    bad, drifts = tlc_judge(ctx, outs, name)
+# ------------------------------------------------------------------ histories on ONE long-lived pair of contexts
+def hist_pattern(h):
+    """Shape of a TLC history: per step who was rewritten, whether the copies agree, the expected outcome,
+    and whether the shard count repeats an earlier one."""
+    seen, pat = [], []
+    for st in h["steps"]:
+        who = st["kind"].split("-")[0] if "-" in st["kind"] else ("start" if not seen else "unchanged")
+        pat.append((who, st["same"], st["expect"], st["n"] in seen))
+        seen.append(st["n"])
+    return tuple(pat)
+
+
+def pick_histories(hists, rng, per_pattern, cap):
+    strata = {}
+    for h in hists:
+        strata.setdefault(hist_pattern(h), []).append(h)
+    out = []
+    for key in sorted(strata):
+        lst = sorted(strata[key], key=lambda h: json.dumps(h, sort_keys=True))
+        rich = [h for h in lst if sum(g["rows"] for f in h["steps"][0]["init"] for g in f["rgs"]) >= 1]
+        pool = rich if len(rich) >= per_pattern else lst
+        out += rng.sample(pool, min(per_pattern, len(pool)))
+    rng.shuffle(out)
+    # the shapes the property is about are always present: answered -> rewritten -> refused, refused -> fixed -> answered
+    def some(pred, k):
+        lst = sorted((h for h in hists if pred(h) and sum(g["rows"] for f in h["steps"][0]["init"] for g in f["rgs"]) >= 1),
+                     key=lambda h: json.dumps(h, sort_keys=True))
+        return rng.sample(lst, min(k, len(lst)))
+    key_first = some(stale_shape, max(30, cap // 6)) + some(fixed_shape, max(30, cap // 6))
+    return (key_first + out)[:cap]
+
+
+def stale_shape(h):
+    """answered while the copies agree, then a copy is rewritten, then the SAME shard count is asked again
+    with a valid index and must be refused"""
+    st = h["steps"]
+    return any(st[i]["expect"] == "ran" and st[j]["expect"] == "refused" and st[j]["same"] == 0 and st[j]["n"] == st[i]["n"]
+               and 0 <= st[j]["idx"] < st[j]["n"] for i in range(len(st)) for j in range(i + 1, len(st)))
+
+
+def fixed_shape(h):
+    """refused while the copies differ, then a copy is brought in line, then the same shard count must be answered"""
+    st = h["steps"]
+    return any(st[i]["expect"] == "refused" and st[i]["same"] == 0 and 0 <= st[i]["idx"] < st[i]["n"] and st[j]["expect"] == "ran"
+               and st[j]["n"] == st[i]["n"] for i in range(len(st)) for j in range(i + 1, len(st)))
+
+
+def build_histories(picked, rng):
+    out = []
+    for hid, h in enumerate(picked, 1):
+        rs, ws = rng.choice([(1, 1), (1, 8), (7, 1), (37, 8)])
+        viadir = hid % 2
+        steps = []
+        for k, st in enumerate(h["steps"]):
+            steps.append({"kind": st["kind"], "init": to_spec(st["init"], rs, ws, viadir == 1), "work": to_spec(st["work"], rs, ws, viadir == 1),
+                          "n": st["n"], "idx": st["idx"], "probe": 1 if (hid % 3 == 0 and k > 0 and st["expect"] == "refused") else 0,
+                          "expect": st["expect"]})
+        out.append({"hid": hid, "viadir": viadir, "steps": steps})
+    return out
+
+
+def run_histories(ctx, hists, tag):
+    inp = os.path.join(ctx.work, f"{tag}.in.ndjson")
+    outp = os.path.join(ctx.work, f"{tag}.out.ndjson")
+    files = os.path.join(ctx.work, f"{tag}.files")
+    shutil.rmtree(files, ignore_errors=True)
+    write_ndjson(inp, hists)
+    try:
+        qev(["gate-history", inp, outp, files], timeout=3000)
+    finally:
+        shutil.rmtree(files, ignore_errors=True)
+    outs = read_ndjson(outp)
+    if len(outs) != sum(len(h["steps"]) for h in hists):
+        raise vlib.ToolError("gate-history returned a different number of records")
+    for o in outs:
+        if o["outcome"] == "setup_error":
+            raise vlib.ToolError(f"gate-history could not set up history {o['hid']}: {o.get('err')}")
+        o["cid"] = o["hid"] * 10 + o["step"]
+        o["tamper"] = 0
+    return outs
+
+
+def judge_histories(ctx, hists, outs, name, pre=None):
+    """Every step of every history is one exchange judged by DigestGateTrace against the footers as they were at
+    that step; a rejected step is reported with its whole history (the replay re-runs the history)."""
+    bad, drifts = pre if pre is not None else tlc_judge(ctx, outs, name)
+    by_hid = {h["hid"]: h for h in hists}
+    for i in bad:
+        o = outs[i]
+        same = content_key(o["init"]) == content_key(o["work"])
+        why = (f"history step {o['step']} ({o['kind']}): execute_fragment "
+               f"{'ran the statement of' if o.get('ran_sql') and o['outcome'] != 'answered' else o['outcome']} shard {o['idx']} of {o['n']} on a "
+               f"long-lived worker context although "
+               + ("the shard index is out of range" if same else
+                  f"the worker's files as they are now ({o['work']}) differ from the initiator's ({o['init']}); rows returned {o.get('ids')[:6]}"))
+        ctx.violation({"hist": by_hid[o["hid"]], "step": o["step"]}, why)
+    for i, what in drifts:
+        key = {"false-refusal": "hist_false_refusals", "other-rows": "hist_foreign_findings_answered_other_rows", "panic": "panics"}[what]
+        ctx.add(key)
+        if ctx.cov.get(key, 0) <= 3:
+            ctx.notes.append(f"fidelity ({what}) in history {outs[i]['hid']} step {outs[i]['step']} ({outs[i]['kind']}): "
+                             f"outcome {outs[i]['outcome']} {outs[i].get('err')}; ids {outs[i].get('ids')[:5]} vs initiator's {outs[i].get('init_ids')[:5]}")
+    ctx.add("traces_validated_against_impl", len(outs) - len(bad))
+    return bad
+
+
+def judge_all(ctx, recs, outs, name, pre=None):
+    bad, drifts = pre if pre is not None else tlc_judge(ctx, outs, name)
     for i in bad:
         o = outs[i]
         same = content_key(o["init"]) == content_key(o["work"])
@@ -158,16 +274,44 @@ def judge_all(ctx, recs, outs, name):
 def run(ctx):
     rng = random.Random(ctx.seed)
     quick = ctx.tier == "quick"
-    res = run_tlc("DigestGate", f"DigestGate_{ctx.tier}.cfg", workers=(4 if quick else 8), timeout=3400, heap="6g", tag="C14-model", coverage=not quick)
-    tlc_must_pass(res, "DigestGate")
+    runs = [(f"DigestGate_{ctx.tier}.cfg", "pairs", False), (f"DigestGate_hist_{ctx.tier}.cfg", "hist", False),
+            ("DigestGate_memo_cex.cfg", "memo", True)]
+    if not quick:
+        # the 3-exchange state space is explored without emission; the histories to run for real come from a
+        # smaller-base configuration that emits only the property-relevant shapes
+        runs.append(("DigestGate_hist_emit_thorough.cfg", "hemit", False))
+
+    def one(r):
+        return r, run_tlc("DigestGate", r[0], workers=(3 if quick else 8), timeout=3400, heap="6g", tag="C14-" + r[1],
+                          coverage=(not quick and not r[2]))
+    with cf.ThreadPoolExecutor(max_workers=3 if quick else 2) as ex:
+        results = {r[1]: res for r, res in ex.map(one, runs)}
+    res, hres, mres = results["pairs"], results["hist"], results["memo"]
+    tlc_must_pass(res, "DigestGate (pairs)")
+    tlc_must_pass(hres, "DigestGate (histories)")
     ctx.tlc_stats(res, "DigestGate: every initiator/worker pair in the bounds; Safety, SameRows, NothingBeforeTheGate, Complete")
-    cases = res.cases
+    ctx.tlc_stats(hres, "DigestGate: every history of 2 (quick) / 3 (thorough) exchanges with in-place rewrites of either copy between them, "
+                        "one persistent worker context")
+    ctx.tlc_stats(mres, "DigestGate with the deviation Memo (worker memoises its split set per shard count): TLC must find the stale answer")
+    if mres.error or mres.violated != "Safety":
+        raise vlib.ToolError(f"DigestGate_memo_cex: expected a Safety counterexample, got violated={mres.violated} error={str(mres.error)[:200]}")
+    ctx.set("model_finds_stale_answer_under_memo_deviation", True)
+    cases = [c["steps"][0] for c in res.cases if len(c["steps"]) == 1]
+    if not quick:
+        tlc_must_pass(results["hemit"], "DigestGate (history emission)")
+        ctx.tlc_stats(results["hemit"], "DigestGate: 3-exchange histories (1 file) emitted for replay: agree->differ / differ->agree at one shard count")
+    hists = [c for c in (hres if quick else results["hemit"]).cases if len(c["steps"]) >= 2]
     if len(cases) < 3000:
         raise vlib.ToolError(f"DigestGate emitted only {len(cases)} pairs")
+    if len(hists) < 2000:
+        raise vlib.ToolError(f"DigestGate emitted only {len(hists)} histories")
     if not quick:
-        for act in ("Fill", "InitiatorSend", "WorkerMalformed", "WorkerEnumerate", "WorkerCompare", "WorkerSlice"):
-            if res.coverage.get(act, 0) == 0:
-                raise vlib.ToolError(f"DigestGate: action {act} never taken")
+        for r0, acts in ((res, ("Fill", "InitiatorSend", "WorkerMalformed", "WorkerEnumerate", "WorkerCompare", "WorkerSlice")),
+                         (hres, ("Fill", "InitiatorSend", "WorkerEnumerate", "WorkerCompare", "WorkerSlice", "Evolve"))):
+            for act in acts:
+                if r0.coverage.get(act, 0) == 0:
+                    raise vlib.ToolError(f"DigestGate: action {act} never taken")
+    ctx.set("tlc_histories", len(hists))
     ctx.set("tlc_pairs", len(cases))
     by_expect = {}
     for c in cases:
@@ -175,8 +319,45 @@ def run(ctx):
     ctx.set("model_outcomes_by_kind", {f"{k}/{e}": v for (k, e), v in sorted(by_expect.items())})
     picked = pick_cases(cases, rng, 6 if quick else 60)
     recs = build_inputs(picked, rng)
-    outs = run_real(ctx, recs, "gate")
-    judge_all(ctx, recs, outs, "trace")
+    # histories on one long-lived initiator context and one long-lived worker context
+    hpicked = pick_histories(hists, rng, 3 if quick else 10, 220 if quick else 2500)
+    hrecs = build_histories(hpicked, rng)
+    with cf.ThreadPoolExecutor(max_workers=2) as ex:
+        f1 = ex.submit(run_real, ctx, recs, "gate")
+        f2 = ex.submit(run_histories, ctx, hrecs, "hist")
+        outs, houts = f1.result(), f2.result()
+    # one trace: the single exchanges, then every step of every history
+    bad, drifts = tlc_judge(ctx, outs + houts, "trace")
+    k = len(outs)
+    judge_all(ctx, recs, outs, "trace", pre=([i for i in bad if i < k], [(i, w) for i, w in drifts if i < k]))
+    judge_histories(ctx, hrecs, houts, "trace", pre=([i - k for i in bad if i >= k], [(i - k, w) for i, w in drifts if i >= k]))
+    hstat = {"histories": len(hrecs), "exchanges": len(houts), "in_place_rewrites": sum(max(o["rewrites_so_far"] for o in houts if o["hid"] == h["hid"]) for h in hrecs),
+             "stale_after_agree": 0, "answered_after_fix": 0, "outcomes": {}}
+    by = {}
+    for o in houts:
+        by.setdefault(o["hid"], []).append(o)
+    hn = set()
+    for hid, st in by.items():
+        ctx.add("evaluations", len(st))
+        differs = [content_key(o["init"]) != content_key(o["work"]) for o in st]
+        # shapes exercised (from the footers on disk, not from what the code answered)
+        for i in range(len(st)):
+            for j in range(i + 1, len(st)):
+                if st[i]["n"] == st[j]["n"] and 0 <= st[j]["idx"] < st[j]["n"] and 0 <= st[i]["idx"] < st[i]["n"] \
+                        and st[j]["rewrites_so_far"] > st[i]["rewrites_so_far"]:
+                    if not differs[i] and differs[j]:
+                        hstat["stale_after_agree"] += 1
+                        hn.add(hid)
+                    if differs[i] and not differs[j]:
+                        hstat["answered_after_fix"] += 1
+                        hn.add(hid)
+        for o, d in zip(st, differs):
+            key = ("differs" if d else "agrees") + "/" + ("in" if 0 <= o["idx"] < o["n"] else "out") + "/" + o["outcome"]
+            hstat.setdefault("outcomes", {})[key] = hstat.get("outcomes", {}).get(key, 0) + 1
+    ctx.set("history_stats", hstat)
+    if hstat["stale_after_agree"] < 5 or hstat["answered_after_fix"] < 5 or hstat["in_place_rewrites"] < 20:
+        vacuity(ctx, f"histories did not exercise agree -> rewritten -> differ and differ -> fixed -> agree (same shard count, valid index) often enough: {hstat}")
+    ctx.sample({"history": [{k: o.get(k) for k in ("step", "kind", "init", "work", "n", "idx", "outcome", "err")} for o in by[sorted(hn)[0]]]})
     # evidence / vacuity
     nontriv = set()
     tab = {}
@@ -192,27 +373,27 @@ def run(ctx):
         if o["outcome"] != exp and not r.get("probe"):
             mismatch += 1
     ctx.set("real_outcomes", dict(sorted(tab.items())))
-    ctx.set("distinct_nontrivial", len(nontriv))
+    ctx.set("distinct_nontrivial", len(nontriv) + len(hn))
     if mismatch:
         ctx.notes.append(f"fidelity: {mismatch} real outcomes differ from the outcome DigestGate.tla predicts for the abstract pair")
     ctx.set("model_vs_real_outcome_mismatches", mismatch)
     answered = sum(v for k, v in tab.items() if k.endswith("/answered"))
     if answered < 10:
-        raise vlib.ToolError(f"only {answered} fragments were answered: the gate was not observed to let equal copies through (coverage collapse)")
+        vacuity(ctx, f"only {answered} fragments were answered: the gate was not observed to let equal copies through (coverage collapse)")
     for k in MUT_KINDS:
         if not any(key.startswith(k + "/in/differs/") for key in tab):
-            raise vlib.ToolError(f"mutation kind {k} never produced differing real footers with a valid shard index")
+            vacuity(ctx, f"mutation kind {k} never produced differing real footers with a valid shard index")
     for cls in ("absent", "n", "beyond"):
         if not any(f"/{cls}/" in key for key in tab):
-            raise vlib.ToolError(f"shard index class {cls} never exercised")
+            vacuity(ctx, f"shard index class {cls} never exercised")
     eqb = [o for r, o in zip(recs, outs) if r.get("equal_bytes")]
     if not eqb or any(o["init"][0]["rgs"][0]["bytes"] != o["work"][0]["rgs"][0]["bytes"] for o in eqb):
-        raise vlib.ToolError("the equal-bytes pair (4 vs 5 rows) no longer has equal byte sizes")
+        vacuity(ctx, "the equal-bytes pair (4 vs 5 rows) no longer has equal byte sizes")
     if not any(key.startswith("tampered/") for key in tab):
-        raise vlib.ToolError("no tampered-digest exchange")
+        vacuity(ctx, "no tampered-digest exchange")
     if not any(key.startswith("probe:") and "/differs/" in key for key in tab) or \
             not any(o.get("ran_sql") == 1 and r.get("probe") for r, o in zip(recs, outs)):
-        raise vlib.ToolError("the ordering probe was not exercised on differing copies, or never surfaced on agreeing ones")
+        vacuity(ctx, "the ordering probe was not exercised on differing copies, or never surfaced on agreeing ones")
     for o in (outs[0], outs[len(outs) // 2], outs[-1]):
         ctx.sample({k: o.get(k) for k in ("kind", "init", "work", "n", "idx", "tamper", "outcome", "err", "ids")})
     ctx.set("exhaustive", True)
@@ -221,14 +402,26 @@ def run(ctx):
             "and shard indices absent/0/n-1/n/n+1, and checks the gate on the model. A stratified seeded sample (per kind x index class x shard count) is "
             "materialised as two directories of real Parquet files; the initiator's digest comes from the real initiator context (splits_of), the worker "
             "runs the public execute_fragment; DigestGateTrace.tla judges each exchange against footers read back from disk. distinct_nontrivial = "
-            "distinct exchanges in which the copies differ, the digest was tampered with, or the index is not a valid shard.")
+            "distinct exchanges in which the copies differ, the digest was tampered with, or the index is not a valid shard, plus histories that contain "
+            "answered -> rewrite -> refused or refused -> fix -> answered at one shard count. Histories: TLC enumerates every sequence of 2/3 exchanges with "
+            "in-place rewrites (+1 row, byte size, +/- row group, or one copy brought in line with the other) of either copy between them and any shard "
+            "count per exchange; a stratified sample is run against ONE reused initiator context and ONE reused worker context (register_parquet on the "
+            "directory, or an explicit file list), files being rewritten under the same paths with a fresh modification time.")
     ctx.assumptions += ["a file or row group without rows is not split-relevant (the gate may let it through)",
                         "a request whose shard index is absent is modelled as refused at decode (wire form without the field)",
                         "tables whose copies differ only in values (same names, layout, row counts and byte sizes) are outside the property",
+                        "in-place rewrites get a modification time no earlier version of the path had (a rewrite inside the file system's timestamp "
+                        "granularity is C19's subject); files are never added to or removed from a registered table during a history",
                         "the other-rows comparison (rows returned vs rows the initiator attributes to the shard) is fidelity: it belongs to C13"]
 
 
 def replay(ctx, obj):
+    if "hist" in obj["case"]:
+        h = obj["case"]["hist"]
+        outs = run_histories(ctx, [h], "replay")
+        judge_histories(ctx, [h], outs, "replay")
+        ctx.add("evaluations", len(outs)); ctx.set("distinct_nontrivial", 1); ctx.sample(outs[-1])
+        return
     c = dict(obj["case"])
     c.setdefault("expect", "refused")
     outs = run_real(ctx, [c], "replay")
@@ -264,4 +457,19 @@ def selftest(ctx):
     _, drifts = tlc_judge(ctx, [t], "selftest-mut")
     print(f"selftest: {'reported' if drifts else 'MISSED'}: answer over other rows than the initiator's shard (fidelity probe)")
     missed += 0 if drifts else 1
+    # histories: a stale answer after an in-place rewrite must be rejected
+    a = [{"name": 1, "dir": 1, "rgs": [{"rows": 4, "w": 3}]}]
+    b = [{"name": 1, "dir": 1, "rgs": [{"rows": 5, "w": 3}]}]
+    h = {"hid": 1, "viadir": 1, "steps": [{"kind": "same", "init": a, "work": a, "n": 2, "idx": 0, "probe": 0, "expect": "ran"},
+                                          {"kind": "worker-rowplus", "init": a, "work": b, "n": 2, "idx": 0, "probe": 0, "expect": "refused"},
+                                          {"kind": "worker-fixed", "init": a, "work": a, "n": 2, "idx": 1, "probe": 0, "expect": "ran"}]}
+    houts = run_histories(ctx, [h], "selftest-h")
+    bad, _ = tlc_judge(ctx, houts, "selftest-h-orig")
+    if bad or [o["outcome"] for o in houts] != ["answered", "refused", "answered"]:
+        print(f"selftest: the real history is not answered/refused/answered or is rejected: {[o['outcome'] for o in houts]}")
+        return 1
+    t = copy.deepcopy(houts); t[1]["outcome"] = "answered"; t[1]["ids"] = houts[0]["ids"]; t[1]["ran_sql"] = 1
+    bad, _ = tlc_judge(ctx, t, "selftest-h-mut")
+    print(f"selftest: {'rejected' if bad else 'ACCEPTED (binding lost)'}: answered from what the worker context remembered although its file was rewritten")
+    missed += 0 if bad else 1
     return 1 if missed else 0
